@@ -170,6 +170,8 @@ def gen_history(rng, length, names=("c", "s"), mode="joint"):
             do({"op": "call", "name": rng.choice([cn, sn]), "call": {"k": "register", "what": rng.choice(["control", "filter", "auth"])}})
         for nm, sess in ((cn, c), (sn, s)):
             retired[nm] |= before[nm] - set(getattr(sess, "_outstanding_requests", []))
+    for nm in (cn, sn):
+        do({"op": "call", "name": nm, "call": {"k": "drain", "amount": None}})
     return reqs
 
 
@@ -269,17 +271,23 @@ def monitor(reqs, replies, roles):
                 viol("C12", None, f"drain raised {ok}", i)
             else:
                 drained[nm] += bytes.fromhex(out["b"])
-                if have_int and bytes.fromhex(out["b"]) + ao != bo:
-                    viol("C12", None, "drain returned bytes + remaining pending bytes differ from what was pending", i)
-                if {x: after[x] for x in after if x != "out"} != {x: before[x] for x in before if x != "out"}:
+                if after.get("state") != before.get("state") or after.get("outstanding") != before.get("outstanding") \
+                        or after.get("searches") != before.get("searches"):
                     viol("C12", None, "drain changed protocol state", i)
+                amt = call.get("amount")
+                if not sent[nm].startswith(drained[nm]):
+                    viol("C12", None, "bytes returned by the drain operation are not the next bytes of the accepted sends (dropped, repeated or reordered)", i)
+                elif amt is None and drained[nm] != sent[nm]:
+                    viol("C12", None, "draining everything did not return all bytes of the accepted sends", i)
+                elif amt is not None and amt >= 0 and len(out["b"]) // 2 != min(amt, len(sent[nm]) - (len(drained[nm]) - len(out["b"]) // 2)):
+                    viol("C12", None, "drain(amount) returned a different number of bytes than min(amount, pending)", i)
         if is_send and accepted:
             try:
                 sent[nm] += call_message(call, out.get("id")).pack(M.PackingOptions())
             except BaseException as e:  # noqa: BLE001
                 viol("C12", None, f"cannot build the reference encoding: {type(e).__name__}", i)
-        if have_int and drained[nm] + ao != sent[nm]:
-            viol("C12", None, "everything drained ++ pending differs from the encodings of the accepted sends in call order", i)
+        if not sent[nm].startswith(drained[nm]):
+            viol("C12", None, "everything drained so far is not a prefix of the encodings of the accepted sends in call order", i)
 
         # ---------------- C10: refused calls have no wire effect; servers answer only open requests
         if is_send and not accepted and ok != "NotApplicable":
